@@ -23,6 +23,15 @@ var VerifDir = func() string {
 	return "/verif"
 }()
 
+// OutDir is where evidence/ and replays/ are written (VERIF_OUT overrides it, for runs against scratch copies of
+// the repository whose results must not replace the evidence of the real tree).
+var OutDir = func() string {
+	if d := os.Getenv("VERIF_OUT"); d != "" {
+		return d
+	}
+	return VerifDir
+}()
+
 // Violation is one counterexample. Sig is its shape signature: the key that known findings
 // are matched against (never a whole property, never a line number).
 type Violation struct {
@@ -165,8 +174,8 @@ func (r *Report) Emit() int {
 	}
 	sort.Strings(order)
 	newViol := 0
-	_ = os.MkdirAll(filepath.Join(VerifDir, "replays"), 0o755)
-	_ = os.MkdirAll(filepath.Join(VerifDir, "evidence"), 0o755)
+	_ = os.MkdirAll(filepath.Join(OutDir, "replays"), 0o755)
+	_ = os.MkdirAll(filepath.Join(OutDir, "evidence"), 0o755)
 	var vsum []map[string]any
 	n := 0
 	for _, k := range order {
@@ -180,7 +189,7 @@ func (r *Report) Emit() int {
 			continue
 		}
 		n++
-		path := filepath.Join(VerifDir, "replays", fmt.Sprintf("%s-%d.json", r.Property, n))
+		path := filepath.Join(OutDir, "replays", fmt.Sprintf("%s-%d.json", r.Property, n))
 		art := map[string]any{"check": r.Property, "tier": r.Tier, "violation": v, "occurrences": len(vs)}
 		b, _ := json.MarshalIndent(art, "", " ")
 		_ = os.WriteFile(path, b, 0o644)
@@ -220,7 +229,7 @@ func (r *Report) Emit() int {
 		"violations":  newViol,
 	}
 	b, _ := json.MarshalIndent(ev, "", " ")
-	_ = os.WriteFile(filepath.Join(VerifDir, "evidence", r.Property+".json"), b, 0o644)
+	_ = os.WriteFile(filepath.Join(OutDir, "evidence", r.Property+".json"), b, 0o644)
 	fmt.Printf("%s %s: states=%d transitions=%d executions=%d nontrivial=%d exhaustive=%v caps=%v known=%v violations=%d wall=%.1fs\n",
 		r.Property, r.Tier, r.States, r.Trans, r.Traces, r.NonTrivial, cov["exhaustive"], r.Caps, r.KnownHits, newViol, time.Since(r.Start).Seconds())
 	if newViol > 0 {
